@@ -78,6 +78,13 @@ def run_case(ctx, mr, case):
             if rng.random() < 0.3:
                 ops += [['r', rng.choice([1, 0x200, 0x333])]]
         ops += [['s', -5, 2], ['r', 100], ['s', 0x18A, 0], ['r', 7]]
+        # the two patched flag bytes (0x18B, 0x18F) met from every side: single bytes, reads that start or end exactly on them, a walk in
+        # pieces over the flag field (fixed part of every history)
+        for o in range(0x186, 0x193):
+            ops += [['s', o, 0], ['r', 1]]
+        for o in (0x189, 0x18A, 0x18B, 0x18C, 0x18D, 0x18E, 0x18F, 0x190):
+            ops += [['s', o, 0], ['r', 0x18F - o + 1 if o < 0x18F else 2], ['s', o, 0], ['r', 5]]
+        ops += [['s', 0x188, 0], ['r', 3], ['r', 1], ['r', 3], ['r', 1], ['r', 2]]
         # relative seeks that would leave the file at its front: the position stays at 0 (never negative), reads go on from there
         ops += [['s', -(n + 7), 2], ['t'], ['r', 5], ['s', -(10 ** 6), 1], ['t'], ['r', 0x203], ['s', 3, 0], ['s', -4, 1], ['r', 2]]
         c.run(ops)
